@@ -133,7 +133,7 @@ class SeqRenderer:
 def seq_model_mismatches(ctx, name, cases):
     """indices of histories on which the Coq model (replay instance, vm_compute) disagrees with the real memoizer"""
     bad, lobad = [], []
-    shard = 150
+    shard = 600 if len(cases) <= 1200 else 1000
     for k in range(0, len(cases), shard):
         part = cases[k:k + shard]
         r = SeqRenderer()
@@ -179,13 +179,40 @@ def tiny_case(res):
     return "mkTC %s [%s] [%s] [%s]" % (nlist(h["init"]), "; ".join(ops), "; ".join(obs), "; ".join(obsp))
 
 
-def tiny_model_mismatches(ctx, name, results):
-    if not results:
-        return []
-    v = HEADER + "Definition cases : list tcase := [\n" + ";\n".join(tiny_case(r) for r in results) + "].\n"
-    v += "Definition M := Eval vm_compute in t_mismatches cases.\nPrint M.\n"
-    out = vcheck.coq_eval(ctx.work, name, v)
-    return vcheck.parse_nat_list(out, "M")
+class Batch:
+    """Collects independent evaluation blocks and runs them in as few coqc invocations as possible
+    (starting coqc and loading the libraries costs seconds on a busy machine)."""
+
+    def __init__(self, ctx, name, limit=1200000):
+        self.ctx, self.name, self.limit = ctx, name, limit
+        self.blocks = []      # (text, [markers])
+        self.results = {}
+
+    def add(self, text, markers):
+        self.blocks.append((text, markers))
+
+    def run(self):
+        files, cur, size = [], [], 0
+        for b in self.blocks:
+            if cur and size + len(b[0]) > self.limit:
+                files.append(cur)
+                cur, size = [], 0
+            cur.append(b)
+            size += len(b[0])
+        if cur:
+            files.append(cur)
+        for i, f in enumerate(files):
+            out = vcheck.coq_eval(self.ctx.work, "%s_%d" % (self.name, i), HEADER + "\n".join(b[0] for b in f))
+            for _, ms in f:
+                for m in ms:
+                    self.results[m] = vcheck.parse_nat_list(out, m)
+        return self.results
+
+
+def tiny_block(batch, tag, results):
+    v = "Definition cases_%s : list tcase := [\n" % tag + ";\n".join(tiny_case(r) for r in results) + "].\n"
+    v += "Definition M_%s := Eval vm_compute in t_mismatches cases_%s.\nPrint M_%s.\n" % (tag, tag, tag)
+    batch.add(v, ["M_" + tag])
 
 
 def scn_term(scn):
@@ -200,24 +227,24 @@ def sobs_term(scn, r):
     return "mkSO %s [%s] %s" % (nlist(r["sched"]), "; ".join(outs), nlist(r["final"]))
 
 
-def sched_model_check(ctx, name, scn, results, count):
+def sched_block(batch, tag, scn, results, count):
     """Coq: every observed schedule is a complete run of the model with the same outcome; the model enumerates
-    exactly `count` complete schedules (so the sets of schedules coincide)."""
-    bad = []
-    shard = 1500
-    mcount = None
+    exactly `count` complete schedules (so the sets of schedules coincide).  Markers: M_<tag>_<k>, CNT_<tag>."""
+    markers = []
+    shard = 3000
     for k in range(0, max(len(results), 1), shard):
         part = results[k:k + shard]
-        v = HEADER + "Definition scn : scenario := %s.\n" % scn_term(scn)
-        v += "Definition obs : list sobs := [\n" + ";\n".join(sobs_term(scn, r) for r in part) + "].\n"
-        v += "Definition M := Eval vm_compute in s_mismatches scn obs.\nPrint M.\n"
-        if k == 0 and count is not None:
-            v += "Definition CNT := Eval vm_compute in [scn_count scn].\nPrint CNT.\n"
-        out = vcheck.coq_eval(ctx.work, "%s_%d" % (name, k), v)
-        bad += [k + i for i in vcheck.parse_nat_list(out, "M")]
-        if k == 0 and count is not None:
-            mcount = vcheck.parse_nat_list(out, "CNT")[0]
-    return bad, mcount
+        v = "Definition scn_%s_%d : scenario := %s.\n" % (tag, k, scn_term(scn))
+        v += "Definition obs_%s_%d : list sobs := [\n" % (tag, k) + ";\n".join(sobs_term(scn, r) for r in part) + "].\n"
+        v += "Definition M_%s_%d := Eval vm_compute in s_mismatches scn_%s_%d obs_%s_%d.\nPrint M_%s_%d.\n" % (
+            tag, k, tag, k, tag, k, tag, k)
+        ms = ["M_%s_%d" % (tag, k)]
+        if k == 0 and count:
+            v += "Definition CNT_%s := Eval vm_compute in [scn_count scn_%s_0].\nPrint CNT_%s.\n" % (tag, tag, tag)
+            ms.append("CNT_" + tag)
+        batch.add(v, ms)
+        markers.append(("M_%s_%d" % (tag, k), k))
+    return markers
 
 
 # ------------------------------------------------------------------------------------------ property-level classification
@@ -505,12 +532,12 @@ def run(ctx):
         for fn in sorted(os.listdir(cdir)):
             if fn.endswith(".json"):
                 corpus.append((None, json.load(open(os.path.join(cdir, fn)))))
+    batch = Batch(ctx, "cases_c19_small")
     tin = tiny_in + [(None, h) for _, h in corpus if "ops" in h]
     tres = hmemo(["-mode", "tiny"], inp="\n".join(json.dumps(h) for _, h in tin) + "\n") if tin else []
-    tbad = tiny_model_mismatches(ctx, "cases_c19_tiny", [r for r in tres if not r["hist"].get("read_faults")])
-    for i in tbad[:3]:
-        ctx.violation({"kind": "tiny-model-vs-real-memoizer", "history": tres[i],
-                       "explain": "the Coq model over the numbered-triple store disagrees with the real memoizer or the real plain store"})
+    tmodel = [r for r in tres if not r["hist"].get("read_faults")]   # the tiny store has no failures: replayed in Coq below
+    if tmodel:
+        tiny_block(batch, "tiny", tmodel)
     for (f, _), r in zip(tin, tres):
         differs = [i for i, (a, b) in enumerate(zip(r["memo"], r["plain"]))
                    if a != b and not (r["hist"].get("read_faults") and a["err"])]
@@ -525,11 +552,10 @@ def run(ctx):
         elif differs:
             ctx.violation({"kind": "corpus-history-differs", "history": r})
     sres = hmemo(["-mode", "sched"], inp="\n".join(json.dumps(x) for _, x in sched_in) + "\n") if sched_in else []
-    for (f, x), r in zip(sched_in, sres):
+    wit_marks = []
+    for n, ((f, x), r) in enumerate(zip(sched_in, sres)):
         cl = classify_sched(x["scn"], r, fixed_offset) if r["complete"] else []
-        b, _ = sched_model_check(ctx, "cases_c19_w_%s" % re.sub(r"\W", "_", f["id"]), x["scn"], [r], None)
-        if b:
-            ctx.violation({"kind": "interleaving-model-vs-real-memoizer", "scenario": x["scn"], "observed": r})
+        wit_marks.append((sched_block(batch, "w%d" % n, x["scn"], [r], None), x, r))
         hit = [c for c in cl if c[2] == f["class"]]
         if hit:
             t, k, _ = hit[0]
@@ -545,6 +571,7 @@ def run(ctx):
     nsched = 0
     outcomes = {}
     stale_by_class = {}
+    scn_marks = []
     for scn in scenarios(ctx.tier):
         rows = hmemo(["-mode", "explore"], inp=json.dumps(scn) + "\n", timeout=1500)
         summary = [r for r in rows if r["kind"] == "explored"][0]
@@ -553,13 +580,7 @@ def run(ctx):
             ctx.violation({"kind": "interleaving-exploration-incomplete", "scenario": scn, "summary": summary,
                            "explain": "a schedule hung or the budget was exhausted"})
             continue
-        sb, mcount = sched_model_check(ctx, "cases_c19_scn_%s" % scn["name"], scn, rs, len(rs))
-        for i in sb[:2]:
-            ctx.violation({"kind": "interleaving-model-vs-real-memoizer", "scenario": scn, "observed": rs[i],
-                           "explain": "the small-step model run on this schedule does not finish with the observed answers"})
-        if mcount != len(rs):
-            ctx.violation({"kind": "interleaving-count", "scenario": scn, "model": mcount, "real": len(rs),
-                           "explain": "the model enumerates a different number of complete schedules than the gated real memoizer allows"})
+        scn_marks.append((sched_block(batch, scn["name"], scn, rs, len(rs)), scn, rs))
         nsched += len(rs)
         outs = set()
         for r in rs:
@@ -574,7 +595,26 @@ def run(ctx):
                                        "schedule": r["sched"], "thread": t, "request": k, "observed": r["threads"][t][k],
                                        "explain": "a read returned an answer the wrapped store did not give at any moment of the "
                                                   "read, and no open finding's classifier covers it"})
-        outcomes[scn["name"]] = {"schedules": len(rs), "distinct_outcomes": len(outs), "model_schedules": mcount}
+        outcomes[scn["name"]] = {"schedules": len(rs), "distinct_outcomes": len(outs)}
+
+    # ---------------------------------------------------------------- evaluate the model on all of it (one or two coqc runs)
+    res = batch.run()
+    for i in res.get("M_tiny", [])[:3]:
+        ctx.violation({"kind": "tiny-model-vs-real-memoizer", "history": tmodel[i],
+                       "explain": "the Coq model over the numbered-triple store disagrees with the real memoizer or the real plain store"})
+    for marks, x, r in wit_marks:
+        if any(res[m] for m, _ in marks):
+            ctx.violation({"kind": "interleaving-model-vs-real-memoizer", "scenario": x["scn"], "observed": r})
+    for marks, scn, rs in scn_marks:
+        sb = [k + i for m, k in marks for i in res[m]]
+        for i in sb[:2]:
+            ctx.violation({"kind": "interleaving-model-vs-real-memoizer", "scenario": scn, "observed": rs[i],
+                           "explain": "the small-step model run on this schedule does not finish with the observed answers"})
+        mcount = res["CNT_" + scn["name"]][0]
+        outcomes[scn["name"]]["model_schedules"] = mcount
+        if mcount != len(rs):
+            ctx.violation({"kind": "interleaving-count", "scenario": scn, "model": mcount, "real": len(rs),
+                           "explain": "the model enumerates a different number of complete schedules than the gated real memoizer allows"})
 
     # ---------------------------------------------------------------- coverage
     ctx.cov["evaluations"] = len(allseq) + len(tres) + len(sres) + nsched
